@@ -160,6 +160,23 @@ func cmdCheck(args []string) int {
 	if os.Getenv("GOVC_TIMING") != "" {
 		fmt.Fprintf(os.Stderr, "generation: %.1fs since start\n", time.Since(t0).Seconds())
 	}
+	// obligations that are tagged for other properties only (e.g. the recursion measure of C15 inside a function
+	// that is also part of C20) belong to those properties' checks
+	{
+		var keep []*Obligation
+		for _, o := range allObls {
+			ok := len(o.Tags) == 0
+			for _, t := range o.Tags {
+				if t == *prop || t == "frame" {
+					ok = true
+				}
+			}
+			if ok || o.Cover || o.Kind == "panic" || o.Kind == "dec" {
+				keep = append(keep, o)
+			}
+		}
+		allObls = keep
+	}
 	// lemmas
 	lemObls, lemErr := e.lemmaObligations(*prop)
 	allObls = append(allObls, lemObls...)
@@ -299,7 +316,20 @@ func cmdCheck(args []string) int {
 		trusted = append(trusted, "assumed global fact (established by init, never reassigned): "+g.Text)
 	}
 	for k := range e.usedAxioms {
-		trusted = append(trusted, "ghost definition (axiom schema, instantiated only by explicit 'uses' clauses; justified by the lemma named in prelude.spec): "+k)
+		switch {
+		case strings.HasPrefix(k, "assumed postcondition"):
+			trusted = append(trusted, "ASSUMED (not checked) "+k)
+		case k == "block_size_exact" || k == "mblock_size_exact":
+			trusted = append(trusted, "INPUT ASSUMPTION (axiom "+k+"): a declared array/map block byte size equals the size of the block's items")
+		case k == "kind_sizes":
+			trusted = append(trusted, "ASSUMED facts about the Go implementation (axiom kind_sizes): gc/amd64 sizes of the reflect kinds; every Go type involved is smaller than 4 MiB")
+		case k == "tdepth_bounds":
+			trusted = append(trusted, "ghost measure bound (axiom tdepth_bounds): the nesting-depth measure of a type is a non-negative number below 2^30")
+		case strings.HasSuffix(k, "_unfold") || strings.HasSuffix(k, "_def"):
+			trusted = append(trusted, "ghost definition (unfolding of a recursive specification function, instantiated only by explicit 'uses' clauses): "+k)
+		default:
+			trusted = append(trusted, "arithmetic axiom schema about 64-bit multiplication / varint extents (instantiated only by explicit 'uses'/'apply' clauses; true of the operation it abstracts): "+k)
+		}
 	}
 	sort.Strings(trusted)
 	trusted = append(trusted, globalTrusted...)
